@@ -20,7 +20,9 @@ func TestVerifDebug(t *testing.T) {
 		t.Skip()
 	}
 	b, _ := os.ReadFile(p)
-	var env struct{ Case matchCase `json:"case"` }
+	var env struct {
+		Case matchCase `json:"case"`
+	}
 	if err := json.Unmarshal(b, &env); err != nil {
 		t.Fatal(err)
 	}
